@@ -63,6 +63,17 @@ def _units(tier):
     return us + T
 
 
+# loadConfigFile(file, url): an %include that names the resource being read (by any spelling) is refused
+# like every other %include
+URL_UNITS = [
+    {'lines': [['%include zope.conf']], 'url': 'http://m/d/zope.conf'},
+    {'lines': [['k v'], ['<a>'], ['%include ./zope.conf#x'], ['</a>']], 'url': 'http://m/d/zope.conf'},
+    {'lines': [['%include ', 2]], 'url': 'http://m/d/ab'},
+    {'lines': [['%include ../d/', 2]], 'url': 'http://m/d/ab'},
+    {'lines': [['k ', 2], ['<', 2, '/>']], 'url': 'http://m/d/ab'},
+]
+
+
 class C17(Harness):
     prop = 'C17'
     domain = 'D'
@@ -89,7 +100,7 @@ class C17(Harness):
         return 170 if tier == 'quick' else 1500
 
     def units(self, tier):
-        return [{'lines': u} for u in _units(tier)]
+        return [{'lines': u} for u in _units(tier)] + [dict(u) for u in URL_UNITS]
 
     def inputs(self, eng, unit):
         _, holes = common.build_lines(self, eng, unit['lines'])
@@ -101,7 +112,13 @@ class C17(Harness):
         lines = common.assemble(unit['lines'], inp)
         with common.env_scope(common.all_concrete(inp), {}):
             try:
-                c1 = schemaless.loadConfigFile(common.make_file(lines))
+                if unit.get('url'):
+                    from .. import instr
+                    if instr.installed():
+                        instr.install_urllib()
+                    c1 = schemaless.loadConfigFile(common.make_file(lines), unit['url'])
+                else:
+                    c1 = schemaless.loadConfigFile(common.make_file(lines))
             except ZConfig.ConfigurationError:
                 return ('reject1',)
             except NotImplementedError:
